@@ -144,6 +144,10 @@ def check(run: lib.Run, audit: dict) -> int:
     if not audit["ok"]:
         raise lib.CheckError(f"Lean build/audit failed at {audit['stage']}: {audit.get('log') or audit.get('forbidden') or audit.get('bad_axioms')}")
     run_cases(run, audit, scale=run.boost)
+    # "whichever evaluation path is taken": the compiled path must also match the same way while another decision is in progress on the
+    # same compiled function (shared with C03)
+    from props import c03 as _c03
+    _c03.overlap_check(run, (60 if run.tier == "quick" else 600) * run.boost)
     violations = []
     if run.spec_failures:
         path = run.write_replay("spec", {"what": "a path matches differently from the documented target table (Rbacx.matchResource; theorems Rbacx.C05.*)",
